@@ -3,7 +3,7 @@
 # simulator binary. Exit 2 on any build trouble (never a VIOLATION).
 set -u
 REPO=${VERIF_REPO:-/repo}
-V=/verif
+V=${VERIF_HOME:-/verif}
 B=${VERIF_BUILD:-$V/.build}
 export GOFLAGS=-mod=mod GOPROXY=off GOTOOLCHAIN=local GONOSUMDB=* GONOSUMCHECK=1 GOFLAGS="-mod=mod"
 GOROOT_DIR=$(ls -d /root/go/pkg/mod/golang.org/toolchain@v0.0.1-go1.26.5.linux-amd64 2>/dev/null)
@@ -19,7 +19,7 @@ mkdir -p $B
   $B/xform -repo $REPO -out $B/overlay -hooks $V/hooks \
      -dirs pkg/blobstore,pkg/digest,pkg/auth,pkg/eviction,pkg/util,pkg/zstd,pkg/blockdevice,pkg/filesystem \
      -xsync $XS:$B/xsync > $B/xform.stats
-  sed "s#@REPO@#$REPO#; s#@BUILD@#$B#" $V/vsim/go.mod.tmpl > $B/vsim.mod
+  sed "s#@REPO@#$REPO#; s#@BUILD@#$B#; s#@HOME@#$V#" $V/vsim/go.mod.tmpl > $B/vsim.mod
   cp $REPO/go.sum $B/vsim.sum
   cd $V/vsim
   $GO build -modfile=$B/vsim.mod -tags verif -overlay $B/overlay/overlay.json -o $B/vsim ./cmd/vsim
